@@ -348,6 +348,17 @@ func (n *Node) AnnounceTx(tx *wire.MsgTx) error {
 	return l.OnTransactionReceived(tx)
 }
 
+// AllBlocks returns every block ever built (all branches).
+func (n *Node) AllBlocks() []*Block {
+	n.mu.Lock()
+	defer n.mu.Unlock()
+	var out []*Block
+	for _, b := range n.All {
+		out = append(out, b)
+	}
+	return out
+}
+
 // BestChain returns a copy of the best chain.
 func (n *Node) BestChain() []*Block {
 	n.mu.Lock()
